@@ -2,7 +2,9 @@
 C10 — extension-field towers compute in the quotient rings they denote.
 
 Specification: Spec/Tower.lean (generic layer K[X]/(X^k − c): schoolbook product, folding modulo X^k − c).
-Model: Model/Fpx.lean (the formulas of src/fpx, statement by statement, over the operation record of the level below).
+Model: Model/Fpx.lean (the formulas of src/fpx, statement by statement, over the operation record of the level below);
+45 of its functions are regenerated from the C text on every run (Gen/Fpx.lean, tools/translate_fpx.py) and proved equal to
+the model definitions in Lemmas/FpxGen.lean (counted as obligations of this property).
 Proofs: Lemmas/Tower.lean, Lemmas/Fpx.lean. All statements are for arbitrary commutative rings / fields and arbitrary
 elements (no bounds); the non-residues are parameters.
 
@@ -23,6 +25,7 @@ fp48 / fp54 (same formulas over larger block fields; specification only).
 -/
 import RelicVerif.Lemmas.Tower
 import RelicVerif.Lemmas.Fpx
+import RelicVerif.Lemmas.FpxGen
 
 namespace Relic.Props.C10
 open Relic.Spec.Tower Relic.Model.Fpx Relic.Model.Formula
